@@ -10,15 +10,15 @@
 (* ceil(|y_obs - y(T)| / (atol + rtol |y(T)|)) computed in exact arithmetic.     *)
 EXTENDS Integers, Sequences, FiniteSets, TLC, Json, IOUtils, Bounds, SequencesExt
 
-Problems == {"rat", "tdep"}
+Problems == {"rat", "tdep", "tdepsmall"}     \* tdepsmall: y' = -2 t y^2 / A, y(0) = A = 2^-20, y(T) = A/(1+T^2)
 Ks == {-4, -3, 4, 8, 16}         \* T = k/8 : -1/2, -3/8, 1/2, 1, 2
 ExactNum(p, k) == IF p = "rat" THEN 8 ELSE 64
-ExactDen(p, k) == IF p = "rat" THEN 8 + k ELSE 64 + k * k
+ExactDen(p, k) == IF p = "rat" THEN 8 + k ELSE IF p = "tdep" THEN 64 + k * k ELSE (64 + k * k) * 1048576
 (* ceil(y(T)^2) bounded below by 1 *)
 Amp(p, k) ==
-    LET n == ExactNum(p, k) d == ExactDen(p, k)
+    LET n == ExactNum(p, k) d == IF p = "tdepsmall" THEN 1 ELSE ExactDen(p, k)
         q == (n * n + d * d - 1) \div (d * d)
-    IN  IF q < 1 THEN 1 ELSE q
+    IN  IF p = "tdepsmall" THEN 1 ELSE IF q < 1 THEN 1 ELSE q
 
 GenOut == [cases |-> SetToSeq({[problem |-> p, k |-> k, num |-> ExactNum(p, k), den |-> ExactDen(p, k), amp |-> Amp(p, k)]
                                : p \in Problems, k \in Ks})]
@@ -32,7 +32,7 @@ vars == <<i, bad>>
 CheckCase(o) ==
     (IF o.num = ExactNum(o.problem, o.k) /\ o.den = ExactDen(o.problem, o.k) THEN {} ELSE {[id |-> o.id, clause |-> "C05.SensorUsedSpecSolution"]})
     \cup (IF o.ok THEN {} ELSE {[id |-> o.id, clause |-> "C05.RunCompletes"]})
-    \cup (IF o.ok /\ o.errUnits > ModestK * Amp(o.problem, o.k) THEN {[id |-> o.id, clause |-> "C05.GlobalErrorProportionalToTolerance"]} ELSE {})
+    \cup (IF o.ok /\ o.errUnits > AccuracyK * Amp(o.problem, o.k) THEN {[id |-> o.id, clause |-> "C05.GlobalErrorProportionalToTolerance"]} ELSE {})
     \cup (IF o.ok /\ o.endUnits > EndUnits THEN {[id |-> o.id, clause |-> "C05.ReachesTheEndTime"]} ELSE {})
 Init == i = 1 /\ bad = {}
 Next == /\ i <= Len(Cases)
